@@ -372,6 +372,9 @@ pub fn state_key_opt(w: &World, rt_used: usize, prov: bool) -> String {
             }
             s.push(' ');
         }
+        if !u.model.classic.is_empty() && u.model.classic.iter().any(|(r, v)| w.model.master.get(r).and_then(|c| c.iter().find(|e| e.ver == *v)).is_some_and(|e| e.hybrid)) {
+            s.push_str("~flavour-mismatch");
+        }
         s.push(']');
     }
     let mut mp: Vec<String> = vec![];
